@@ -181,6 +181,17 @@ def scenarios():
         ev_state('block(t1)', blocks=extended([('t1',)]), names=()), T, T,
         ev_state('silent-switch', blocks=forked(1, [('t1', 't6')], over=extended([('t1',)])), names=()),
         ev_forced_reorg(1), T, T, T, T])
+    # two reorganisations in a row, by-height queries (they fill the session manager's caches)
+    # between them: whatever the first one's clean-up is still doing, the second is not missed
+    first = lambda: forked(1, [('t1', 't6'), ()], over=extended([('t1',)]))         # noqa: E731
+    out['two-reorgs'] = dict(mempool0=('t1',), script=lambda: [
+        ev_state('block(t1)', blocks=extended([('t1',)]), names=()), T, T,
+        ev_state('fork-a', blocks=first(), names=()), T, T,
+        ev_request('c2', 'blockchain.transaction.id_from_pos', [8, 1, False], tag='during'),
+        ev_request('c2', 'blockchain.transaction.id_from_pos', [8, 2, True], tag='during'),
+        ev_request('c2', 'blockchain.transaction.id_from_pos', [9, 0, True], tag='during'),
+        ev_state('fork-b', blocks=forked(2, [('t6',), (), ()], tag=b'Z', over=first()), names=('t1',)),
+        T, T, T, T])
     # S5: cache-pressure flush at an intermediate height while the daemon keeps advancing
     out['pressure-flush'] = dict(mempool0=('t6',), script=lambda: [
         ev_state('block(t6)', blocks=extended([('t6',)]), names=('t1',)),
